@@ -193,7 +193,7 @@ def tier_b(acc, m, seed, fr):
     def tap(bond_descriptors, bond, rng_):
         n0 = len(rng.log)
         try:
-            caller = sys._getframe(1).f_code.co_name
+            caller = sys._getframe(1).f_code.co_name.lstrip("_")
         except Exception:  # noqa: BLE001
             caller = "?"
         facts = [bd_facts(b) for b in bond_descriptors]
@@ -205,9 +205,12 @@ def tier_b(acc, m, seed, fr):
                       "chosen_list": facts[int(idx)]["transitions"] if bond is None else None, "log_pos": n0})
         return idx
 
-    saved = [(gs, gs.choose_compatible_weight), (gt, gt.choose_compatible_weight)]
-    gs.choose_compatible_weight = tap
-    gt.choose_compatible_weight = tap
+    saved = [(mod_, mod_.choose_compatible_weight) for mod_ in (gs, gt) if hasattr(mod_, "choose_compatible_weight")]
+    if not saved:
+        acc.count("tier_b_not_observable")  # the decision function is no longer reachable under its public name: no verdict
+        return
+    for mod_, _f in saved:
+        mod_.choose_compatible_weight = tap
     try:
         targets = targets_for(m, fr)
         gres = gen.generate(parsed, rng, targets)
@@ -231,9 +234,11 @@ def tier_b(acc, m, seed, fr):
             continue
         opts, p, res = c["entry"]
         cand = [i for i, f in enumerate(c["facts"]) if c["bond"] is None or compat(c["bond"], f)]
-        if [int(x) for x in opts] != cand:
-            acc.violation("decision_candidates", f"{text!r}: decision {k} ({c['caller']}): candidates {list(opts)} but the compatible descriptors are {cand}", case,
-                          {"caller": c["caller"]}, size=len(text))
+        # how the options are labelled at the generator interface (descriptor indices, positions 0..n-1, ...) is the library's
+        # business; what the statement fixes is *how many* candidates there are and with which probabilities they are offered
+        if len(opts) != len(cand) or c["idx"] not in cand:
+            acc.violation("decision_candidates", f"{text!r}: decision {k} ({c['caller']}): {len(opts)} candidates offered (descriptor {c['idx']} taken) but the "
+                          f"compatible descriptors are {cand}", case, {"caller": c["caller"]}, size=len(text))
             return
         ref = reflaw.normalise([c["facts"][i]["weight"] for i in cand])
         if p is None or len(p) != len(ref) or any(abs(a - b) > 1e-12 for a, b in zip(p, ref)):
